@@ -69,17 +69,37 @@ def prepared_model(rng):
     """a seeded model; in one model out of two the jobs that share a storage write and delete data in DIFFERENT units (what
     the storage sums first then depends on the order in which it meets its jobs, which the identifiers decide)"""
     model = gen.random_model(rng)
-    if rng.random() < 0.5:
-        reach, by_sto = efx.reachable(model), {}
-        for j in efx.names_of(model, "Job"):
-            if j in reach:
-                by_sto.setdefault(model[model[j]["lnk"]["server"]]["lnk"]["storage"], []).append(j)
-        for sto, js in by_sto.items():
-            if len(js) >= 2:
-                for j, mv in zip(js, ([200, "kB"], [-0.05, "MB"], [0.0003, "GB"])):
-                    model[j]["inp"]["data_stored"] = list(mv)
-                model[sto]["inp"]["base_storage_need"] = [1, "TB"]
+    reach = efx.reachable(model)
+    jobs = [j for j in efx.names_of(model, "Job") if j in reach]
+    if len(jobs) >= 3 and rng.random() < 0.7:
+        server = model[jobs[0]]["lnk"]["server"]
+        for j, mv in zip(jobs, ([200, "kB"], [-0.05, "MB"], [0.0003, "GB"])):
+            model[j]["lnk"]["server"] = server
+            model[j]["inp"]["data_stored"] = list(mv)
+        model[model[server]["lnk"]["storage"]]["inp"]["base_storage_need"] = [1, "TB"]
     return model
+
+
+def special_model():
+    """three jobs on one server and storage: two write data in different units, one deletes; two usage patterns"""
+    m = {}
+    m["sto1"] = efx.new_obj("Storage", base_storage_need=[1, "TB"])
+    m["sv1"] = efx.new_obj("Server", storage="sto1")
+    for j, mv in (("j1", [200, "kB"]), ("j2", [-0.05, "MB"]), ("j3", [0.0003, "GB"])):
+        m[j] = efx.new_obj("Job", server="sv1", data_stored=mv)
+    m["s1"] = efx.new_obj("UsageJourneyStep", jobs=["j1", "j2", "j3"])
+    m["s2"] = efx.new_obj("UsageJourneyStep", jobs=["j3", "j1"])
+    m["uj1"] = efx.new_obj("UsageJourney", uj_steps=["s1", "s2"])
+    m["d1"], m["n1"], m["c1"] = efx.new_obj("Device"), efx.new_obj("Network"), efx.new_obj("Country")
+    m["up1"] = efx.new_obj("UsagePattern", usage_journey="uj1", network="n1", country="c1", devices=["d1"], starts=[3, 1, 4, 1, 5])
+    m["up2"] = efx.new_obj("UsagePattern", usage_journey="uj1", network="n1", country="c1", devices=["d1"], starts=[2, 7, 1],
+                           start="2025-01-01T02:00:00")
+    m["sys"] = efx.new_obj("System", usage_patterns=["up1", "up2"])
+    return m
+
+
+def model_of_seed(seed):
+    return special_model() if seed < 0 else prepared_model(random.Random(seed))
 
 
 def child_dump(seeds):
@@ -87,8 +107,7 @@ def child_dump(seeds):
     ns = efx.load()
     out = {}
     for seed in seeds:
-        rng = random.Random(seed)
-        model = prepared_model(rng)
+        model = model_of_seed(seed)
         try:
             live = efx.build(ns, model)
         except Exception as ex:
@@ -127,9 +146,10 @@ def run(tier, out):
         n_models = 20 if tier == "quick" else 300
         events, tid = [], 0
         refs = {}
-        for seed in range(base, base + n_models):
+        for seed in [-1] + list(range(base, base + n_models)):
             rng = random.Random(seed)
-            model = prepared_model(rng)
+            model = model_of_seed(seed)
+            rng.random()
             try:
                 live = efx.build(ns, model)
             except Exception:
@@ -149,7 +169,7 @@ def run(tier, out):
                     d = [[f"build raised {type(ex).__name__}", str(ex)[:80]]]
                 events.append({"tid": tid, "seq": seq, "ev": "Sibling", "seed": seed, "variant": variant, "differs": d})
                 out.nontrivial.add((seed, variant, seq))
-            for k in range(3):
+            for k in range(3 if seed >= 0 else 10):
                 sibling("identifiers-and-set-order(rebuild)", model)
             for k in range(2):
                 sibling("creation-order", model, order=permuted_order(rng, model))
